@@ -18,22 +18,22 @@ open SynKit.Canon (sortBy sortNat irDedup irSplitBy irIsDiscrete irTargetCell ir
   length_le_flatMap irTargetCell_some irTargetCell_none irIsDiscrete_of_targetCell_none irIndividualise_ok
   IRPartOK.length_le LGraph_ids_length)
 
-theorem crnInitPart_ok (sel : SelD) (G : LGraph) (hd : CrnDefined sel G) : IRPartOK G.ids (crnInitPart sel G) := by
+theorem crnInitPart_ok (sel : SelD) (G : LGraph) : IRPartOK G.ids (crnInitPart sel G) := by
   unfold crnInitPart
   split
-  · rename_i hk
-    have hne : G.ids ≠ [] := by
-      rcases hd with h | h
-      · exact h
-      · exact absurd (List.isEmpty_iff.1 hk) h
-    refine ⟨by simpa using sortNat_perm G.ids, ?_⟩
-    intro c hc
-    simp only [List.mem_singleton] at hc
-    subst hc
-    intro he
-    have := sortNat_length G.ids
-    rw [he] at this
-    exact hne (List.length_eq_zero_iff.1 this.symm)
+  · split
+    · rename_i he
+      rw [List.isEmpty_iff.1 he]
+      exact ⟨by simp, fun c hc => absurd hc List.not_mem_nil⟩
+    · rename_i hne
+      refine ⟨by simpa using sortNat_perm G.ids, ?_⟩
+      intro c hc
+      simp only [List.mem_singleton] at hc
+      subst hc
+      intro he
+      have := sortNat_length G.ids
+      rw [he] at this
+      exact hne (List.isEmpty_iff.2 (List.length_eq_zero_iff.1 this.symm))
   · exact ⟨irSplitBy_flatten_perm _ _ _, irSplitBy_ne_nil _ _ _⟩
 
 /-! ## Refinement -/
@@ -177,13 +177,13 @@ theorem crnLeaves_ne_nil (sel : SelD) (G : LGraph) {ids : List Nat} (hn : ids.No
           intro he
           exact this (List.append_eq_nil_iff.1 he).1
 
-theorem crnRootLeaves_perm (sel : SelD) (G : LGraph) (hn : G.ids.Nodup) (hd : CrnDefined sel G) :
+theorem crnRootLeaves_perm (sel : SelD) (G : LGraph) (hn : G.ids.Nodup) :
     ∀ l ∈ crnRootLeaves sel G, l.2.Perm G.ids :=
-  crnLeaves_order_perm sel G hn _ _ _ (crnInitPart_ok sel G hd)
+  crnLeaves_order_perm sel G hn _ _ _ (crnInitPart_ok sel G)
 
-theorem crnRootLeaves_ne_nil (sel : SelD) (G : LGraph) (hn : G.ids.Nodup) (hd : CrnDefined sel G) :
+theorem crnRootLeaves_ne_nil (sel : SelD) (G : LGraph) (hn : G.ids.Nodup) :
     crnRootLeaves sel G ≠ [] := by
-  apply crnLeaves_ne_nil sel G hn _ _ _ (crnInitPart_ok sel G hd)
+  apply crnLeaves_ne_nil sel G hn _ _ _ (crnInitPart_ok sel G)
   have := LGraph_ids_length G
   omega
 
@@ -284,10 +284,10 @@ theorem crnLeaves_fuel_add (sel : SelD) (G : LGraph) {ids : List Nat} (hn : ids.
     rw [← Nat.add_assoc, crnLeaves_fuel_succ sel G hn (fuel + d) P pfx hok (by omega), ih]
 
 /-- at the root: any larger depth bound gives the same search tree -/
-theorem crnLeaves_root_fuel (sel : SelD) (G : LGraph) (hn : G.ids.Nodup) (hd : CrnDefined sel G) (d : Nat) :
+theorem crnLeaves_root_fuel (sel : SelD) (G : LGraph) (hn : G.ids.Nodup) (d : Nat) :
     crnLeaves sel G (G.nodes.length + 1 + d) (crnInitPart sel G) [] = crnRootLeaves sel G := by
   unfold crnRootLeaves
-  apply crnLeaves_fuel_add sel G hn _ _ _ (crnInitPart_ok sel G hd)
+  apply crnLeaves_fuel_add sel G hn _ _ _ (crnInitPart_ok sel G)
   have := LGraph_ids_length G
   omega
 
